@@ -748,6 +748,32 @@ func C13(c *core.Ctx) {
 			lines = append(lines, "c13 shape "+stoks+" "+strings.Join(c13jvalToks(v), " "))
 			idx = append(idx, i)
 		}
+		// the path verdict of the Lean model on the plain request paths (no query, no escapes, no module prefix, no '..')
+		nShapeLines := len(lines)
+		for i, rq := range reqs {
+			if rq.Kind != "find" || strings.ContainsAny(rq.A, "?%:+\x00") || strings.Contains(rq.A, "..") || len(rq.A) > 2000 || rq.A == "" {
+				continue
+			}
+			var toks []string
+			n := 0
+			for _, seg := range strings.Split(rq.A, "/") {
+				if seg == "" {
+					break
+				}
+				n++
+				if eq := strings.Index(seg, "="); eq >= 0 {
+					keys := strings.Split(seg[eq+1:], ",")
+					toks = append(toks, core.Hex(seg[:eq]), "1", fmt.Sprint(len(keys)))
+					for _, k := range keys {
+						toks = append(toks, core.Hex(k))
+					}
+				} else {
+					toks = append(toks, core.Hex(seg), "0", "0")
+				}
+			}
+			lines = append(lines, "c13 path "+stoks+" "+fmt.Sprint(n)+" "+strings.Join(toks, " "))
+			idx = append(idx, i)
+		}
 		outs, derr := core.RunDriver(lines)
 		if derr != nil {
 			c.ProofBroken = append(c.ProofBroken, derr.Error())
@@ -756,6 +782,19 @@ func C13(c *core.Ctx) {
 		for k, o := range outs {
 			i := idx[k]
 			lib := strings.Fields(results[i] + " ?")[0]
+			if k >= nShapeLines {
+				// one direction: what the model refuses the library must refuse (the library may refuse more, e.g. a
+				// key text that does not convert)
+				m := strings.TrimSpace(o)
+				c.Count("path_model", m+"/"+lib)
+				if m != "ok" && m != "refused" {
+					c.Count("driver", "path:"+short(o))
+				} else if m == "refused" && lib == "ok" {
+					c.Violation(core.Replay{Kind: "correspondence", Class: "path-verdict", Summary: fmt.Sprintf("%s %q: library %s; the path model says refused", reqs[i].Desc, short(reqs[i].A), lib),
+						Input: map[string]interface{}{"yang": y, "path": reqs[i].A}, Impl: lib, Model: m})
+				}
+				continue
+			}
 			c.Count("shape_model", strings.TrimSpace(o))
 			want := map[string]string{"ok": "ok", "refused": "error"}[strings.TrimSpace(o)]
 			if want == "" {
